@@ -3,6 +3,7 @@ package main
 // C08 Crash-restart equivalence: structural necessary conditions.
 
 import (
+	"go/token"
 	"sort"
 	"strings"
 
@@ -344,6 +345,15 @@ func valueFromChainStateField(p *Program, v ssa.Value, field string, depth int) 
 		if strings.HasSuffix(pa.FieldString(), "chainstate."+field) {
 			ok = true
 			return true
+		}
+		// the field of a ChainState object read anywhere (e.g. inside a ChainState method returning it)
+		if ld, isLd := y.(*ssa.UnOp); isLd && ld.Op == token.MUL {
+			if fa, isFA := ld.X.(*ssa.FieldAddr); isFA && fieldName(fa.X.Type(), fa.Field) == field {
+				if n := namedOf(derefT(fa.X.Type())); n != nil && tname(n) == "storage.ChainState" {
+					ok = true
+					return true
+				}
+			}
 		}
 		// through a same-package getter returning the field
 		if c, isC := y.(*ssa.Call); isC {
